@@ -288,6 +288,7 @@ def run(rep, progs, tier):
                    "nom/bytes/std internals", "audited reasons (text)"]
     rep.assume("memory growth on hostile `binary:` lengths and allocation failure are out of scope")
     for cfg, prog in progs.items():
+        READS.bind(prog)
         inventory_rule(rep, prog, cfg)
         numbers_rule(rep, prog, cfg)
         invalid_rule(rep, prog, cfg)
